@@ -47,6 +47,30 @@ def judge(res: Result, case: Dict[str, Any], vals: List[Any], typ, k: int, get_t
         res.violate(Violation(ID, "loose", f"{arm}:{'_'.join(sig)}", case, f"{O.show(T)} — {why}"))
         return
     res.outcomes.add(hash(O.struct(T)))
+    # the same collection merged as call traces (one trace per value, plus one call that raised and one that yielded):
+    # the per-position types of shrink_traced_types must be as tight as the direct merge
+    if case.get("family", "").startswith(("single", "pair")):
+        from monkeytype.stubs import shrink_traced_types
+        from monkeytype.tracing import CallTrace
+
+        import vfx.shapes as S
+
+        traces = [CallTrace(S.mfunc, {"x": t}, t, None) for t in types] + [CallTrace(S.mfunc, {"x": types[0]}, None, None)]
+        res.transitions += 1
+        try:
+            args, ret, yld = shrink_traced_types(traces, k)
+        except Exception as e:  # noqa: BLE001
+            res.violate(Violation(ID, "exception", "shrink_traced_types", case, f"raised {e!r}"))
+            return
+        for label, TT in (("arg", args.get("x")), ("return", ret)):
+            if TT is None:
+                res.violate(Violation(ID, "loose", f"traces:{label}-missing", case, f"{label} type missing after merging traces"))
+                continue
+            w2 = O.tight(TT, vals) if all(O.member(v, TT) for v in vals) else "a value is not a member"
+            if w2 is not None:
+                res.violate(Violation(ID, "loose", f"traces:{label}", case, f"merged {label} type {O.show(TT)} — {w2}"))
+        if yld is not None:
+            res.violate(Violation(ID, "loose", "traces:yield-invented", case, f"yield type {O.show(yld)} although nothing was yielded"))
     if _interesting(T):
         res.nontrivial_n += 1
         names = {O.classify(x)[0] for x in O.walk(T)}
